@@ -401,6 +401,7 @@ def correspond(ctx):
         first = []
         seen_min = {}           # minimal program -> (signature, kind, culprit option)
         budget = 120            # shrink at most this many disagreeing programs (they collapse to few signatures)
+        unexplained = 0         # disagreements that did not end in (or collapse into) a concrete reported violation
         dis.sort(key=lambda iw: (len(progs[iw[0]]), iw[0]))
         for i, why in dis:
             p = progs[i]
@@ -411,6 +412,7 @@ def correspond(ctx):
             if len(first) < 10:
                 first.append({"argv": flat(p), "binary": impl[i][:300], "model": model[i][:300]})
             if why == "model":
+                unexplained += 1
                 continue
             # already explained by a minimal program found before?
             qk, qo = quick_kind(p, impl[i], model[i])
@@ -419,6 +421,7 @@ def correspond(ctx):
             if any(k == "output-differs" and o in p for (_, k, o) in seen_min.values()):
                 continue        # contains an option instance already known to leave a wrong value behind
             if budget <= 0:
+                unexplained += 1
                 continue
             budget -= 1
             mp = tuple(shrink(p, both, (qk, qo)))
@@ -449,6 +452,7 @@ def correspond(ctx):
                      "minimal disagreeing programs": {" ".join(flat(k)): v[0] for k, v in list(seen_min.items())[:60]}},
             "samples": samples,
             "disagreements": len(dis),
+            "unexplained_disagreements": unexplained,
             "first_disagreements": first[:10],
             "exhaustive_subspaces": [
                 "all programs of length <= 2 over the %d-instance option alphabet (every option letter of the manual) after each of %d two-value prefixes, observed with -Q -o-" % (na, len(PREFIXES)),
